@@ -24,6 +24,7 @@ pub mod c17;
 pub mod c18;
 pub mod c19;
 pub mod c20;
+pub mod scale;
 
 pub fn gen(prop: &str, g: &mut Gen) {
     match prop {
@@ -49,6 +50,7 @@ pub fn gen(prop: &str, g: &mut Gen) {
         "C20" => c20::gen(g),
         _ => panic!("unknown property {}", prop),
     }
+    scale::gen_for(prop, g);
 }
 
 pub fn exec(words: &[&str], obs: &mut Obs) -> Option<String> {
@@ -73,6 +75,7 @@ pub fn exec(words: &[&str], obs: &mut Obs) -> Option<String> {
         .or_else(|| c18::exec(words, obs))
         .or_else(|| c19::exec(words, obs))
         .or_else(|| c20::exec(words, obs))
+        .or_else(|| scale::exec(words, obs))
 }
 
 pub fn tables() -> String {
